@@ -128,7 +128,7 @@ class TextMessageProtocol(HDAP):
         )
         option_data: Optional[bytes] = (
             (data[option_data_start_idx : (payload_idx + payload_len - 2)])
-            if has_option and option_data_len
+            if has_option
             else None
         )
 
